@@ -259,6 +259,43 @@ pub fn directed(idx: u64, variant: u64, d: Duration) -> Scenario {
     s
 }
 
+/// Bounded-exhaustive timing grids: every relative timing (1 ms resolution) of a request and a
+/// notification around the racy points, for several wire latencies and idle-reply choppings.
+pub const GRID_A: u64 = 21 * 21 * 2 * 2; // request x notification x latency x chopping
+pub const GRID_B: u64 = 11 * 11 * 2; // second request x notification around the re-idle window x latency
+pub const NUM_GRID: u64 = GRID_A + GRID_B;
+
+pub fn grid(idx: u64, d: Duration) -> Scenario {
+    let mut s = Scenario::new("timing-grid", 0x671d0000 + idx);
+    let dms = d.as_millis() as u64;
+    if idx < GRID_A {
+        let a = idx % 21;
+        let b = (idx / 21) % 21;
+        let lat = (idx / 441) % 2;
+        let chop = (idx / 882) % 2;
+        s.name = format!("timing-grid-A(req@{}ms, change@{}ms, latency {}, chop {})", 50 + a, 50 + b, lat * 3, chop);
+        s.world.c2s_latency = vec![ms(lat * 3)];
+        s.world.reply_delay = vec![ms(lat * 2)];
+        if chop == 1 {
+            s.world.idle_seg = vec![SegPolicy::PerLine];
+            s.world.idle_chunk_delay = vec![ms(4)];
+        }
+        s.callers = vec![(ms(50 + a), vec![Step::Do(Req::Raw { shape: 1 }), Step::Do(Req::Raw { shape: 6 })])];
+        s.notifications = vec![(ms(50 + b), vec!["player".into(), "mixer".into()]), (ms(50 + b + 7), vec!["options".into()])];
+    } else {
+        let k = idx - GRID_A;
+        let a = k % 11;
+        let b = (k / 11) % 11;
+        let lat = (k / 121) % 2;
+        s.name = format!("timing-grid-B(second request {} ms around the window end, change {} ms around it, latency {})", a as i64 - 5, b as i64 - 5, lat * 2);
+        s.world.c2s_latency = vec![ms(lat * 2)];
+        // first reply is delivered at 20 ms (+ latency); the window ends D later
+        s.callers = vec![(ms(20), vec![Step::Do(Req::Raw { shape: 0 })]), (ms(20 + lat * 2 + dms - 5 + a), vec![Step::Do(Req::Raw { shape: 1 })])];
+        s.notifications = vec![(ms(20 + lat * 2 + dms - 5 + b), vec!["sticker".into()])];
+    }
+    s
+}
+
 /// Seeded random scenario.
 pub fn random(seed: u64, d: Duration) -> Scenario {
     let mut r = Rng::keyed(&[0x5ce7a210, seed]);
